@@ -115,6 +115,32 @@ def compact(r: random.Random, text: str) -> str | None:
 	return cand
 
 
+def airy(r: random.Random, text: str) -> str | None:
+	"""The same sentence with white-space-only lines and indented comment lines put between its lines (also right before a line that
+	goes back to an outer block): CPython's ast must stay the same."""
+	lines = text.rstrip('\n').split('\n')
+	out = []
+	for i, line in enumerate(lines):
+		out.append(line)
+		pad = line[:len(line) - len(line.lstrip('\t'))]
+		x = r.random()
+		if x < 0.25:
+			out.append(pad + r.choice(['', ' ', '\t', '  ']))
+		elif x < 0.4:
+			out.append(pad + '\t' + '# note')
+		elif x < 0.5:
+			out.append(pad + '# note')
+	cand = '\n'.join(out) + '\n'
+	if cand == text:
+		return None
+	try:
+		if ast.dump(ast.parse(cand)) != ast.dump(ast.parse(text)):
+			return None
+	except SyntaxError:
+		return None
+	return cand
+
+
 RE_SUMMARY = re.compile(r"^pass: (\d+)/(\d+), token: (.*)\n\((\d+)\) >>> (.*)\n(.*)$", re.S)
 
 
@@ -234,7 +260,8 @@ FIXED = [
 ]
 
 
-FIXED_COMPACT = ['x = a[-1]\n', 'x = [-1, -2]\n', 'x = a[b:-1]\n', 'f(a[-n], -m)\n', 'x = {"k": -2}\n', 'x = (-a)\n', 'x = a if -b else -c\n', 'x = a == -1\n', 'x = a*-b\n']
+FIXED_COMPACT = ['if a :\n\tb = 1\n\t\nc = 2\n', 'if a :\n\tb = 1\n\t# note\nc = 2\n', 'a = 1\n \nb = 2\n', 'def f ( ) -> None :\n\twhile a :\n\t\tb = 1\n\t\t\n\tc = 2\n  \nd = 3\n',
+	'x = a[-1]\n', 'x = [-1, -2]\n', 'x = a[b:-1]\n', 'f(a[-n], -m)\n', 'x = {"k": -2}\n', 'x = (-a)\n', 'x = a if -b else -c\n', 'x = a == -1\n', 'x = a*-b\n']
 
 
 def shard(ctx: Ctx, acc: Acc) -> None:
@@ -262,6 +289,11 @@ def shard(ctx: Ctx, acc: Acc) -> None:
 				if ct is not None:
 					acc.see('layout', 'compact')
 					check_text(acc, {'text': ct, 'features': sorted(g.f) + ['layout:compact']})
+			if i % 4 == 2:
+				at = airy(r, text)
+				if at is not None:
+					acc.see('layout', 'blank-and-comment-lines')
+					check_text(acc, {'text': at, 'features': sorted(g.f) + ['layout:airy']})
 			if i % 3 == 0:
 				mt, kind = mutate(r, text)
 				if mt != text:
